@@ -665,6 +665,38 @@ def process(ctx, jobs, res, leaves, stats, max_cases):
         ctx.obligation("translator-validation(regenerated k_calc reproduces LK_SPECIES in binary64)", not bad_tr, "; ".join(bad_tr[:5]))
 
 
+def check_collisions(ctx, dbs, stats):
+    """Phase names are case-insensitive in PHREEQC and a later PHASES entry silently replaces an earlier one.  A database
+    in which two DIFFERENT phases collide (llnl.dat: HF(g) hydrogen fluoride / Hf(g) hafnium) loses the first one: the
+    log K reported under the first name is not the one its database entry prescribes."""
+    jobs = []
+    for dbname in dbs:
+        db = get_db(dbname)
+        for old, oldp, new in db.d.get("collisions", []):
+            if oldp.get("eq") is None or not all(a in db.d["named"] for a, _ in oldp["add"]):
+                continue
+            txt = ('SOLUTION 1\n temp 25\nSELECTED_OUTPUT 1\n -reset false\n -high_precision true\nUSER_PUNCH 1\n -headings LK\n'
+                   ' 10 PUNCH LK_PHASE("%s")\nEND\n' % old)
+            jobs.append({"id": "coll:%s:%s" % (dbname, old), "db": dbname, "text": txt, "old": old, "oldp": oldp, "new": new})
+    if not jobs:
+        return
+    res = vlib.run_inputs(jobs, timeout_each=60, workers=2)
+    for j in jobs:
+        r = res.get(j["id"], {})
+        tab = (r.get("tables") or {}).get("1")
+        if not tab or len(tab) < 2:
+            continue
+        lk = vlib.cell_value(tab[1][0])
+        exp = dbp.logk_T(dbp.kvector(get_db(j["db"]).d, j["oldp"]), 298.15)
+        stats["phase_name_collisions"] = stats.get("phase_name_collisions", 0) + 1
+        if isinstance(lk, float) and abs(lk - exp) > 1e-9:
+            ctx.violation("phase-name-collision:%s:%s" % (j["db"], j["old"]),
+                          "[%s] LK_PHASE(\"%s\") = %.10g at 25 C but the PHASES entry %s (%s) prescribes %.10g: the entry is silently replaced by the later "
+                          "entry %s (phase names are case-insensitive)" % (j["db"], j["old"], lk, j["old"], j["oldp"].get("text"), exp, j["new"]),
+                          {"kind": "input", "database": j["db"], "input_text": j["text"], "category": "phase-name-collision", "name": j["old"],
+                           "observed": lk, "expected": exp})
+
+
 def run(ctx):
     leaves = {}
 
@@ -679,7 +711,9 @@ def run(ctx):
     stats["coq_stage_wall_s"] = coq_stage_s
     if ctx.replay:
         rp = json.load(open(ctx.replay))
-        if rp.get("kind") == "input":
+        if rp.get("kind") == "input" and rp.get("category") == "phase-name-collision":
+            check_collisions(ctx, [rp["database"]], stats)
+        elif rp.get("kind") == "input":
             dbname = rp["database"]
             db = get_db(dbname)
             # the punch block names the phases / elements in its text: recover them
@@ -713,6 +747,7 @@ def run(ctx):
     res = vlib.run_inputs(jobs, timeout_each=60, workers=min(8, vlib.NCPU))
     stats["engine_wall_s"] = round(time.time() - t0, 1)
     process(ctx, jobs, res, leaves, stats, 10 ** 6)
+    check_collisions(ctx, dbs, stats)
     ctx.rule = ("random solutions over the primary elements of each database (rotating so that all are visited; 2-9 elements, "
                 "log-uniform 1e-9..3 molal with most mass in 1e-7..3e-2, pH 2..12, pe -5..15, 0..100 C, several units, 25% one element "
                 "charge-adjusted, 10% pH charge-adjusted, 15% phase-adjusted, 30% of redox elements given by valence state), "
